@@ -49,8 +49,22 @@ def draw_profile(rng: _random.Random) -> Dict[str, Any]:
 UNIFORM_PROFILE = {"phases": [{"coin": "uniform", "shuffle": "uniform", "sample": "uniform", "len": 1}]}
 
 
+class ChoiceBudgetExceeded(BaseException):
+    """The evaluation consumed more random decisions than the run's cap."""
+
+
+FAIR_AFTER = 6  # identical consecutive biased outcomes before one uniform draw is interposed
+
+
 class SimRandom(_random.Random):
-    """A ``random.Random`` whose high-level outcomes are biased and recorded."""
+    """A ``random.Random`` whose high-level outcomes are biased and recorded.
+
+    Fairness: a caller may legitimately redraw until it likes the outcome
+    (rejection sampling -- CPython's own ``_randbelow`` does).  A biased mode
+    that answered the same thing for ever would turn that into an endless loop
+    which no real generator produces, so after FAIR_AFTER identical consecutive
+    answers to the same question one uniform draw is interposed.
+    """
 
     def __init__(
         self,
@@ -68,6 +82,24 @@ class SimRandom(_random.Random):
         self._phase_left = self.profile["phases"][0]["len"]
         self._alt = 0
         self.fed = 0  # how many decisions were taken from the feed
+        self.cap: Optional[int] = None
+        self._last: Any = None
+        self._same = 0
+
+    def _fair(self, key: Any) -> bool:
+        """True when the biased answer *key* may be given once more."""
+        if self.cap is not None and len(self.log) > self.cap:
+            raise ChoiceBudgetExceeded(len(self.log))
+        if key == self._last:
+            self._same += 1
+            if self._same >= FAIR_AFTER:
+                self._same = 0
+                self._last = None
+                return False
+        else:
+            self._last = key
+            self._same = 0
+        return True
 
     # -- phases ---------------------------------------------------------
     def _mode(self, kind: str) -> str:
@@ -99,9 +131,9 @@ class SimRandom(_random.Random):
         if fed is not None and 0 <= fed < n:
             idx = fed
         elif mode == "first":
-            idx = 0
+            idx = 0 if self._fair(("c", n, 0)) else self._u.randrange(n)
         elif mode == "second":
-            idx = n - 1
+            idx = n - 1 if self._fair(("c", n, n - 1)) else self._u.randrange(n)
         elif mode == "alternate":
             idx = self._alt % n
             self._alt += 1
@@ -190,9 +222,9 @@ class SimRandom(_random.Random):
         if isinstance(fed, float) and 0.0 <= fed < 1.0:
             v = fed
         elif mode == "zero":
-            v = 0.0
+            v = 0.0 if self._fair(("f", 0)) else self._u.random()
         elif mode == "almost_one":
-            v = 1.0 - 2.0**-53
+            v = 1.0 - 2.0**-53 if self._fair(("f", 1)) else self._u.random()
         elif mode == "tiny":
             v = self._u.random() * 1e-300
         elif mode == "extremes":
@@ -210,10 +242,12 @@ class SimRandom(_random.Random):
         mode = self._mode("bits")
         if isinstance(fed, int) and 0 <= fed < (1 << k):
             v = fed
-        elif mode == "zeros" or k == 0:
+        elif k == 0:
             v = 0
+        elif mode == "zeros":
+            v = 0 if self._fair(("b", k, 0)) else self._u.getrandbits(k)
         elif mode == "ones":
-            v = (1 << k) - 1
+            v = (1 << k) - 1 if self._fair(("b", k, 1)) else self._u.getrandbits(k)
         elif mode == "alternate":
             self._alt += 1
             v = 0 if self._alt % 2 else (1 << k) - 1
